@@ -108,6 +108,14 @@ def valid_set(name, m, tier, nseeds=None, check_positions=None, kw=None, cap=Non
             if v not in nodes:
                 for u in synth._repair(m, v, kw):
                     nodes[u] = 0
+    if not kw:
+        # valid numbers of other lengths than the documented examples are start nodes too
+        try:
+            from . import synth
+            for u in synth.length_variants(name, m, sv, limit=12):
+                nodes.setdefault(u, 0)
+        except Exception:
+            pass
     stats = {'seeds': len(nodes), 'edges': 0, 'tried': 0}
     frontier = list(nodes)
     # slow validators (registry lookups of ~4 ms): bound the number of expanded nodes, and say so
